@@ -273,7 +273,9 @@ class GaussianBackend(BaseGaussian):
         r = self.circuit.smean()
 
         if modes is None:
-            modes = list(range(len(self.get_modes())))
+            # the mean vector and covariance matrix are never compacted when a mode is
+            # deleted: the data of mode ``i`` stays in slot ``i``
+            modes = self.get_modes()
 
         listmodes = list(concatenate((2 * array(modes), 2 * array(modes) + 1)))
         covmat = empty((2 * len(modes), 2 * len(modes)))
@@ -286,7 +288,7 @@ class GaussianBackend(BaseGaussian):
         means *= sqrt(2 * self.circuit.hbar) / 2
         covmat *= self.circuit.hbar / 2
 
-        mode_names = ["q[{}]".format(i) for i in array(self.get_modes())[modes]]
+        mode_names = ["q[{}]".format(i) for i in modes]
         return BaseGaussianState((means, covmat), len(modes), mode_names=mode_names)
 
     def mzgate(self, phi_in, phi_ex, mode1, mode2):
